@@ -1,6 +1,6 @@
 """C01 -- cells stay with their rows under any operation history."""
 from histprop import HistProp
-from core_props import ProbeMixin, series_payload_probes, getitem_dispatch_probe
+from core_props import ProbeMixin, series_payload_probes, series_default_probes, getitem_dispatch_probe
 
 
 class C01(ProbeMixin, HistProp):
@@ -19,7 +19,8 @@ class C01(ProbeMixin, HistProp):
     ]
     assumptions = [
         '20% of the histories run on tables with SeriesColumns through the pseudo-column encoding of Spec/SeriesEnc.v '
-        '(numbers only; tables compared up to name order); Python-side series payload probes in addition',
+        '(numbers only; tables compared up to name order); Python-side series payload probes in addition, incl. the '
+        'empty value (NaN / 0 for defaultnan=False) of rows added to derived tables by a resize or a concatenation',
         'random operations take the permutation the implementation produced as an oracle argument, validated in Coq',
     ]
 
@@ -27,7 +28,8 @@ class C01(ProbeMixin, HistProp):
         return super().generate(rng, tier) + self.direct_probes(rng, 80 if tier == 'quick' else 800)
 
     def direct_probes(self, rng, n):
-        return series_payload_probes(rng, n, 'C01') + [getitem_dispatch_probe()]
+        return (series_payload_probes(rng, n, 'C01') + series_default_probes(rng, max(30, n // 2))
+                + [getitem_dispatch_probe()])
 
 
 PROP = C01()
